@@ -143,9 +143,17 @@ class C07(Prop):
             for i in down:
                 steps.append({"t": "node", "id": i, "health": "up"})
         dead = ck.get("dead_timeout", 0) if stack == "hash" else 0
-        steps.append({"t": "advance", "dt": 2 * dead + 5})
-        steps.append({"t": "call", "m": "get", "a": [E(keys[0])], "k": {}, "tag": "warm"})
-        steps.append({"t": "advance", "dt": 2 * dead + 5})
+        if dead and rng.random() < 0.5:
+            # the application never pauses: a read every quarter of dead_timeout, for two and a half periods
+            gap = max(dead / 4.0, 0.5)
+            for _ in range(int((2.5 * dead + 5) / gap) + 1):
+                steps.append({"t": "advance", "dt": gap})
+                steps.append({"t": "call", "m": "get", "a": [E(rng.choice(keys))], "k": {}, "tag": "warm"})
+            steps.append({"t": "advance", "dt": gap})
+        else:
+            steps.append({"t": "advance", "dt": 2 * dead + 5})
+            steps.append({"t": "call", "m": "get", "a": [E(keys[0])], "k": {}, "tag": "warm"})
+            steps.append({"t": "advance", "dt": 2 * dead + 5})
         steps.append({"t": "call", "m": "set", "a": [E(keys[0]), E(b"usable")], "k": {"noreply": False},
                       "tag": "usable-set"})
         steps.append({"t": "call", "m": "get", "a": [E(keys[0])], "k": {}, "tag": "usable-get"})
